@@ -85,7 +85,7 @@ UNIT = dict(
     'nbq.push.rejected_untouched': dict(deciding=True, text='a failed try_push never moves from its argument (C07: the value stays with the caller)'),
     'nbq.push.appends': dict(deciding=True, text='successful try_push: the oldest free index is appended to the allocated ring, its cell holds the pushed value, all other cells and the order of older elements are unchanged'),
     'nbq.push.publish_order': dict(deciding=True, text='try_push: exactly one free-ring dequeue, then the placement-new, then exactly one allocated-ring enqueue (the index is published only after the element exists)'),
-    'nbq.pop.release_order': dict(deciding=True, text='try_pop: allocated-ring dequeue, move-out, ~T, and only then the index goes back to the free ring (no producer can reuse the cell earlier)'),
+    'nbq.pop.destroy_before_release': dict(deciding=True, text='try_pop: allocated-ring dequeue, move-out, ~T, and only then the index goes back to the free ring (no producer can reuse the cell earlier)'),
     'nbq.pop.empty_iff': dict(deciding=True, text='try_pop fails iff no element is stored; then result, rings and cells are unchanged'),
     'nbq.pop.takes_first': dict(deciding=True, text='successful try_pop: result = value of the oldest allocated index, that index moves to the end of the free ring, other elements keep order and value'),
     'nbq.own.exactly_once': dict(deciding=True, text='C07: placement-new only into raw cells, ~T only on live cells; push constructs exactly one cell; pop moves out of and destroys exactly the popped cell'),
